@@ -566,6 +566,12 @@ func executePipe(t *testing.T, prop string, seed uint64, p *PipePlan) *core.Resu
 				if !errors.Is(pr.readErr, wantErr) {
 					hint(k)
 					res.Fail(prop, "cut", "wrong error after the cut: want "+wantErr.Error()+" got "+normErr(pr.readErr), "%s", what)
+				} else if cerr == nil && pr.readErr != io.EOF {
+					// io.Reader: the end of the stream is io.EOF itself - io.Copy,
+					// io.ReadAll and bufio compare with ==, an error that merely wraps
+					// it is a failure to them
+					hint(k)
+					res.Fail(prop, "cut", "the end of the client's stream is not reported as io.EOF itself", "%s: got %q (%T)", what, pr.readErr.Error(), pr.readErr)
 				}
 				if k < len(ps.c) && k > 0 {
 					res.Probe("cut_mid_stream")
